@@ -189,6 +189,12 @@ def make_script_exc(etype: str | None, idx: int, klass: str, ra: Any, as_obj: bo
         x = ScriptGroup(f"scripted group {klass} #{idx}", [member])
         x.idx, x.klass, x.ra, x.as_obj = idx, klass, ra, as_obj
         return x
+    if etype.startswith("Coded:"):
+        # SDK errors carrying a textual code / status (errno names, payment-provider codes): any classifier may look at them
+        x = ScriptExc(idx, klass, ra, as_obj)
+        x.code = etype.split(":", 1)[1]
+        x.status = "n/a"
+        return x
     x = TYPED_EXC[etype](f"scripted {klass} #{idx}")
     x.idx, x.klass, x.ra, x.as_obj = idx, klass, ra, as_obj
     return x
